@@ -336,6 +336,16 @@ func roundTrip(c *Ctx, r *runner, rng *Rand, s rtSpec, model bool) {
 		c.Count("emitted-several-groups")
 	}
 	c.Nontrivial(tr.signature())
+	// the real encoder's choices, recovered from its bytes, checked against the hypothesis of the
+	// proved round-trip theorem (wf_planb + byte-exact re-emission by the model emitter)
+	if f := strings.Fields(r.ask("replan " + hx)); len(f) >= 3 && f[0] == "R" && f[1] == "wf=1" && f[2] == "emit=1" {
+		c.Count("encoder-choices:valid(wf_planb & byte-exact re-emission)")
+		if sem := strings.Join(f[3:], " "); sem != line {
+			c.Violate("sem-of-recovered-plan-vs-decode", "the pixels denoted by the plan recovered from the encoder's bytes differ from what Decode returns", map[string]any{"spec": s, "sem": sem, "decode": line})
+		}
+	} else {
+		c.Count("encoder-choices:outside-proved-fragment " + strings.Join(f, " "))
+	}
 	c.Case("dec "+tr.tag()+" "+hx, line)
 	c.Sample(map[string]any{"kind": "roundtrip", "spec": s, "bytes": len(file), "emitted": tr.signature()})
 }
